@@ -199,7 +199,25 @@ def run_circuit(case):
             continue
         w = sp.nsimplify(sp.sympify(kind))
         if not w.is_Rational:
-            res['ac'][str(kind)] = {'error': 'non-rational omega'}
+            if case.get('omega_subs'):
+                # symbolic angular frequency: report the phasors with the symbol replaced by a rational value
+                wv = sp.Rational(case['omega_subs'])
+                ssub = {sy: wv for sy in w.free_symbols}
+                out = {'symbolic': str(kind), 'V': {}, 'I': {}}
+                for nm in names:
+                    for attr, dst in (('V', out['V']), ('I', out['I'])):
+                        try:
+                            sup = getattr(c[nm], attr)
+                            val = None
+                            for k, v in sup.items():
+                                if not isinstance(k, str) and sp.simplify(sp.sympify(k) - sp.sympify(kind)) == 0:
+                                    val = v
+                            dst[nm] = gq(val, ssub) if val is not None else '0/1,0/1'
+                        except Exception as e:
+                            dst[nm] = {'error': type(e).__name__ + ': ' + str(e)[:100]}
+                res['ac'][q(wv)] = out
+            else:
+                res['ac'][str(kind)] = {'error': 'non-rational omega'}
             continue
         ws = q(w)
         sub = {ssym: sp.I * w}
@@ -295,7 +313,7 @@ def run_circuit(case):
                 except Exception as e:
                     out['transfer'] = {'error': type(e).__name__ + ': ' + str(e)[:150]}
         res['ac'][ws] = out
-    if case.get('want_time', True):
+    if case.get('want_time', True) and not case.get('omega_subs'):
         oms = list(res['ac'].keys())
         for nm in names[:case.get('ntime', 4)]:
             try:
